@@ -10,12 +10,17 @@ import real
 import xt
 from xt import PNode
 
-THEOREMS = ["XmlDiffModel.C11_table_injective", "XmlDiffModel.C11_table_stable", "XmlDiffModel.C11_fresh_placeholder"]
+THEOREMS = ["XmlDiffModel.C11_table_injective", "XmlDiffModel.C11_table_stable", "XmlDiffModel.C11_fresh_placeholder",
+            "XmlDiffModel.C11_roundtrip_element", "XmlDiffModel.C11_roundtrip_element_fresh_maker"]
 PARTIAL = {
-    "C11_roundtrip": "NOT proved: undo_tree(do_tree(t)) = t (the nesting argument for undo_string); decided per run by the round-trip oracle "
-    "on the real maker and by unit U7 (model vs. code on do_tree / table / undo_tree). Proved, for every history of get_placeholder "
-    "calls on one maker: the table is injective in both directions, entries are never changed or removed, equal keys get equal "
-    "placeholders, and a new placeholder is fresh.",
+    "C11_roundtrip_tree": "proved: the round trip of one text element - undo_element(do_element(e)) has the normal form of e (restored "
+    "inline elements are copies, an empty text or tail is not told from a missing one) - on the fresh maker and on every maker state "
+    "satisfying the table / heap invariants, for any nesting of formatting and single elements (C11_roundtrip_element, "
+    "C11_roundtrip_element_fresh_maker; texts without characters from U+E000 on, node identities new to the maker); and for every "
+    "history of get_placeholder calls on one maker: the table is injective in both directions, entries are never changed or removed, "
+    "equal keys get equal placeholders, a new placeholder is fresh. NOT proved: the round trip of a whole document through do_tree / "
+    "undo_tree (several text elements, text tags nested in text tags, which go through the heap of detached elements); decided per "
+    "run by the round-trip oracle on the real maker and by unit U7 (model vs. code on do_tree / table / undo_tree).",
 }
 LEAN_MODULES = ["XmlDiffModel.Props.C11"]
 SOURCES = ["formatting.PlaceholderMaker"]
